@@ -123,6 +123,29 @@ fn serde_values(case: &Value) -> Value {
             if problems.len() < 40 { problems.push(json!({"kind":"double","crate":"gds21","fmt": fmt, "via":"string", "r": r})); }
         }
     }
+    // ---- neutral / identity-like values (what a "skip if it is the default anyway" predicate would drop): every pair of
+    //      them as explicit MAG / ANGLE of a struct reference, an array reference and a text, and as units
+    let neutral = [0.0f64, -0.0, 1.0, -1.0, 2.0, 0.5, 90.0, 180.0, 270.0, 360.0, 1e-3, 1e-9];
+    for (i, a) in neutral.iter().enumerate() { for (j, b) in neutral.iter().enumerate() {
+        let mut lib = GdsLibrary::new("n");
+        lib.set_all_dates(GdsDateTime { year: 100, month: 1, day: 1, hour: 0, minute: 0, second: 0 });
+        if *a > 0.0 && *b > 0.0 { lib.units = GdsUnits(*a, *b); }
+        let mut st = GdsStruct::new("s"); st.dates = lib.dates.clone();
+        let variants = [GdsStrans { mag: Some(*a), angle: Some(*b), ..Default::default() }, GdsStrans { mag: Some(*a), ..Default::default() },
+                        GdsStrans { angle: Some(*b), ..Default::default() }, GdsStrans { reflected: true, mag: Some(*a), angle: Some(*b), ..Default::default() }];
+        for v in variants.iter() {
+            st.elems.push(GdsStructRef { name: "x".into(), xy: GdsPoint::new(0, 0), strans: Some(v.clone()), ..Default::default() }.into());
+            st.elems.push(GdsArrayRef { name: "x".into(), xy: [GdsPoint::new(0, 0), GdsPoint::new(10, 0), GdsPoint::new(0, 10)], cols: 1, rows: 1, strans: Some(v.clone()), ..Default::default() }.into());
+            st.elems.push(GdsTextElem { string: "t".into(), layer: 0, texttype: 0, xy: GdsPoint::new(0, 0), strans: Some(v.clone()), ..Default::default() }.into());
+        }
+        lib.structs.push(st);
+        let fmt = if (i + j) % 2 == 0 { "json" } else { "yaml" };
+        ndoubles += 26;
+        let r = match guarded(|| rt_gds(&lib, fmt, "string", tmp)) { Ok(v) => v, Err(p) => json!({"outcome":"panic","msg":p}) };
+        if !(r["outcome"] == "ok" && r["eq"] == true && r["proj_eq"] == true) {
+            if problems.len() < 60 { problems.push(json!({"kind":"neutral","crate":"gds21","fmt": fmt, "via":"string", "value": format!("mag {a:?} angle {b:?}"), "r": r})); }
+        }
+    }}
     // ---- LEF decimals in many spellings keep value AND are equal after the trip
     json!({"id": id(case), "outcome":"ok", "strings_checked": nstrings, "doubles_checked": ndoubles, "libs_with_double_loss": per_fmt, "problems": problems})
 }
